@@ -116,6 +116,10 @@ def cases():
     add("view:unsigned+bitvector", "reject", fn(SEQ, "p1", "sb.unsigned.next = self.d"), fn(SEQ, "p2", "sb[0] <<= self.a"), fn(CON, "c3", "self.o2 <<= sb.unsigned"))
     add("always+other-ctx", "reject", fn(SEQ, "p1", "with cohdl.always:", "    s.next = self.d"), fn(SEQ, "p2", "nonlocal s", "s <<= 1"))
     add("always+same-ctx-write", "reject", fn(SEQ, "p1", "nonlocal s", "with cohdl.always:", "    s.next = self.d", "s <<= 1"))
+    add("always+same-ctx-write:no-default", "reject", ["nd = Signal[Unsigned[4]]()"], fn(SEQ, "p1", "nonlocal nd", "with cohdl.always:", "    nd.next = self.d", "if self.a:", "    nd <<= 1", "self.o2 <<= nd"))
+    add("always+same-ctx-write:noreset", "reject", ["nr = Signal[Unsigned[4]](0, noreset=True)"], fn(SEQR, "p1", "nonlocal nr", "with cohdl.always:", "    nr.next = self.d", "if self.a:", "    nr <<= 1", "self.o2 <<= nr"))
+    add("always+same-ctx-write:port-no-default", "reject", fn(SEQ, "p1", "with cohdl.always:", "    self.o.next = self.d", "if self.a:", "    self.o <<= 1"), observe=False)
+    add("always-value+same-ctx-write", "accept", ["nd = Signal[Unsigned[4]]()"], fn(SEQ, "p1", "nonlocal nd", "nd <<= cohdl.always(self.d + 1)", "if self.a:", "    nd <<= 1", "self.o2 <<= nd"))
     # --- instances -----------------------------------------------------------------------------------
     add("inst+seq", "reject", ["Sub(i=self.d, x=s, y=s2, xb=sb[1:0])"], fn(SEQ, "p1", "nonlocal s", "s <<= 1"))
     add("inst+conc", "reject", ["Sub(i=self.d, x=s, y=s2, xb=sb[1:0])"], fn(CON, "c1", "nonlocal s2", "s2 <<= 1"))
